@@ -136,6 +136,13 @@ def too_big(expr: str, ns: dict) -> bool:
             r = py_eval(_ast.unparse(node.right), ns)
             if r[0] == 'ok' and isinstance(r[1], int) and not isinstance(r[1], bool) and 4096 < r[1] < 2 ** 40:
                 return True
+        if isinstance(node, _ast.BinOp) and isinstance(node.op, _ast.Mult):
+            # 'ab' * 66571993088 is a 133 GB string
+            a, b = py_eval(_ast.unparse(node.left), ns), py_eval(_ast.unparse(node.right), ns)
+            if a[0] == 'ok' and b[0] == 'ok':
+                for x, y in ((a[1], b[1]), (b[1], a[1])):
+                    if isinstance(x, str) and isinstance(y, int) and not isinstance(y, bool) and 4096 < y < 2 ** 40:
+                        return True
         return False
     return visit(tree.body)
 
@@ -401,7 +408,7 @@ def run(ctx):
     return {
         'evaluations': n,
         'distinct_nontrivial': nontriv,
-        'rule': f'all expressions with <= {2 if ctx.quick else 3} operator applications (binary {BIN_OPS}, unary {UN_OPS}, casts {CASTS}, parentheses in every position) over leaves {LEAVES_FULL} (1 op), a reduced leaf set for 2 and 3 ops; distinct by text; expressions that shift by more than 4096 (and less than 2**40) bits are not evaluated (outcome skipped-...: results of up to gigabytes; beyond 2**40 Python and the evaluator both fail at once, which is compared); non-trivial = at least two operator applications',
+        'rule': f'all expressions with <= {2 if ctx.quick else 3} operator applications (binary {BIN_OPS}, unary {UN_OPS}, casts {CASTS}, parentheses in every position) over leaves {LEAVES_FULL} (1 op), a reduced leaf set for 2 and 3 ops; distinct by text; expressions that shift by, or repeat a string, more than 4096 (and less than 2**40) times are not evaluated (outcome skipped-...: results of up to gigabytes; beyond 2**40 Python and the evaluator both fail at once, which is compared); non-trivial = at least two operator applications',
         'samples': uniq[:3] + uniq[len(uniq) // 2: len(uniq) // 2 + 3] + uniq[-3:],
         'outcomes': outcomes,
         'values_agreeing_with_python': agreed,
